@@ -90,6 +90,13 @@ inductive V where
   | seq (xs : List V)
   /-- map with string keys (kept sorted by the constructors of the program model) -/
   | map (kvs : List (String × V))
+  /-- `ValueRepr::Bytes`: raw bytes (text only through lossy UTF-8 decoding) -/
+  | bytes (bs : List Nat)
+  /-- `ValueRepr::F64`: the text the number formatter produces (digits, `.`, `e`, `-`, `inf`, `NaN`) -/
+  | float (cs : List Char)
+  /-- an object that is neither sequence nor map (`ObjectRepr::Plain`, or any object as far as
+      printing goes): the text its `render` writes -/
+  | obj (text : TStr)
   deriving Inhabited
 
 def natDigits (n : Nat) : List Char :=
@@ -103,6 +110,42 @@ def intChars (n : Int) : List Char :=
 def ofDataL (cs : List Char) : TStr := cs.map (fun c => ⟨c, .data⟩)
 
 def contains (s : TStr) (c : Char) : Bool := s.any (fun ch => ch.c == c)
+
+/-- `String::from_utf8_lossy` and `str::from_utf8(..).is_ok()` on the byte alphabet of the
+    correspondence: ASCII, two-byte sequences (lead `C2..DF` + continuation), stray continuation
+    bytes, lone leads and `F5..FF` (each replaced by U+FFFD).  Three- and four-byte sequences are
+    outside the modelled alphabet.  The text is data; nothing the theorems say depends on the decoder. -/
+def lossy : List Nat → TStr × Bool
+  | [] => ([], true)
+  | [b] => if b < 128 then ([⟨Char.ofNat b, .data⟩], true) else ([⟨Char.ofNat 65533, .data⟩], false)
+  | b :: c :: rest =>
+    if b < 128 then
+      let r := lossy (c :: rest)
+      (⟨Char.ofNat b, .data⟩ :: r.1, r.2)
+    else if 194 ≤ b ∧ b ≤ 223 ∧ 128 ≤ c ∧ c ≤ 191 then
+      let r := lossy rest
+      (⟨Char.ofNat ((b - 192) * 64 + (c - 128)), .data⟩ :: r.1, r.2)
+    else
+      let r := lossy (c :: rest)
+      (⟨Char.ofNat 65533, .data⟩ :: r.1, false)
+
+def hexDigit (n : Nat) : Char := if n < 10 then Char.ofNat (48 + n) else Char.ofNat (87 + n)
+
+/-- `Debug` of bytes: `b'…'` with `u8::escape_ascii` (`"` is written as is) -/
+def bytesRepr (bs : List Nat) : TStr :=
+  let esc (b : Nat) : TStr :=
+    if b == 34 then [⟨'"', .data⟩]
+    else if b == 9 then ofTmpl "\\t" else if b == 10 then ofTmpl "\\n" else if b == 13 then ofTmpl "\\r"
+    else if b == 39 then [⟨'\\', .tmpl⟩, ⟨'\'', .data⟩]
+    else if b == 92 then [⟨'\\', .tmpl⟩, ⟨'\\', .data⟩]
+    else if 32 ≤ b ∧ b ≤ 126 then [⟨Char.ofNat b, .data⟩]
+    else [⟨'\\', .tmpl⟩, ⟨'x', .tmpl⟩, ⟨hexDigit (b / 16), .data⟩, ⟨hexDigit (b % 16), .data⟩]
+  ofTmpl "b'" ++ bs.flatMap esc ++ ofTmpl "'"
+
+/-- text of a float: what the number formatter produced.  The formatter's alphabet (digits `.` `e`
+    `-` `inf` `NaN`) has no metacharacter; the model makes that true by construction (validated on
+    the real formatter by the harness) instead of modelling float formatting. -/
+def floatText (cs : List Char) : TStr := ofDataL (cs.filter fun c => !isMeta c)
 
 /-- `python_string_debug_fmt` (control characters other than `\n \r \t` are outside the modelled
     alphabet) -/
@@ -127,6 +170,9 @@ def V.repr : V → TStr
   | .undef => ofData "undefined"
   | .seq xs => ofTmpl "[" ++ V.reprL xs ++ ofTmpl "]"
   | .map kvs => ofTmpl "{" ++ V.reprM kvs ++ ofTmpl "}"
+  | .bytes bs => bytesRepr bs
+  | .float cs => floatText cs
+  | .obj t => t
 def V.reprL : List V → TStr
   | [] => []
   | [x] => x.repr
@@ -141,6 +187,7 @@ end
 def V.display : V → TStr
   | .str s _ => s
   | .undef => []
+  | .bytes bs => (lossy bs).1
   | v => v.repr
 
 /-- `serde_json::to_string` of a string (characters of the modelled alphabet) -/
@@ -163,6 +210,9 @@ def V.json : V → TStr
   | .undef => ofData "null"
   | .seq xs => ofTmpl "[" ++ V.jsonL xs ++ ofTmpl "]"
   | .map kvs => ofTmpl "{" ++ V.jsonM kvs ++ ofTmpl "}"
+  | .bytes bs => ofTmpl "[" ++ ((bs.map fun b => ofDataL (natDigits b)).intersperse (ofTmpl ",")).flatten ++ ofTmpl "]"
+  | .float cs => floatText cs
+  | .obj t => t
 def V.jsonL : List V → TStr
   | [] => []
   | [x] => x.json
@@ -180,6 +230,10 @@ def writeHtml : V → TStr
   | .str s _ => escapeStr s
   | .seq xs => htmlEscape (V.seq xs).display
   | .map kvs => htmlEscape (V.map kvs).display
+  -- bytes: `as_str()` is `Some` exactly for valid UTF-8 (string path), otherwise the catch-all
+  | .bytes bs => if (lossy bs).2 then escapeStr (lossy bs).1 else htmlEscape (lossy bs).1
+  | .obj t => htmlEscape t
+  -- Undefined | None | Bool | Number: plain Display
   | v => v.display
 
 /-- `write_escaped` -/
@@ -191,6 +245,35 @@ def writeEscaped (m : Mode) (v : V) : TStr :=
     | .none => v.display
     | .html => writeHtml v
     | .json => v.json
+
+/-- the decisions of `write_escaped` and `write_with_html_escaping`, in source order, as
+    `writeEscaped` / `writeHtml` above transcribe them (compared with the list regenerated from
+    `utils.rs`, `Gen.c02WriteEscapedDispatch`) -/
+def modelDispatch : List String := [
+  "safe-string:raw",                        -- writeEscaped: `.str s true => s`
+  "mode:None:display", "mode:Html:html", "mode:Json:json", "mode:Custom:error",
+  "fast:U64:raw", "fast:I64:guarded:raw", "fast:I64:raw", "fast:Bool:raw",   -- digits / True / False: `v.display`
+  "smallstr-ascii-integer:raw",             -- digits and `-`: what the escaper writes too
+  "as_str:prefilter-or-escape",             -- `.str` and valid-UTF-8 `.bytes`: `escapeStr`
+  "kind[Undefined,None,Bool,Number]:display",
+  "else:escape-to_string"]                  -- `.seq`, `.map`, `.obj`, invalid-UTF-8 `.bytes`: `htmlEscape display`
+
+/-- `Value::as_str`: which representations have text without conversion -/
+def modelAsStrArms : List String := ["String:some", "SmallStr:some", "Bytes:utf8"]
+
+/-- every `ValueRepr` variant (with its `ValueKind`) and how the model prints it under Html -/
+def reprClass : String → Option String
+  | "None:None" => some "no metacharacter by construction: V.none, text None"
+  | "Undefined:Undefined" => some "no metacharacter by construction: V.undef, empty text"
+  | "Bool:Bool" => some "no metacharacter by construction: V.bool, text True/False"
+  | "U64:Number" | "I64:Number" | "U128:Number" | "I128:Number" =>
+    some "no metacharacter by construction: V.int, digits and minus (intChars_noMeta)"
+  | "F64:Number" => some "no metacharacter by construction: V.float, floatText (formatter alphabet validated by the harness)"
+  | "String:String" | "SmallStr:String" => some "escaped via its text: V.str (Safe strings verbatim)"
+  | "Bytes:Bytes" => some "escaped via its (lossy) text: V.bytes, both the valid-UTF-8 string path and the catch-all"
+  | "Object:Object" => some "escaped via its text: V.seq / V.map / V.obj (Display of containers, render of objects)"
+  | "Invalid:Invalid" => some "escaped via its text; an invalid value aborts rendering when it is looked up, so it is never printed by a template"
+  | _ => Option.none
 
 /-! ## the invariant -/
 
@@ -373,6 +456,7 @@ def repeatF (n : Nat) : Fn
 def sliceF (a b : Nat) : Fn
   | [.str s _] => some (.str ((s.drop a).take (b - a)) false)
   | [.seq xs] => some (.seq ((xs.drop a).take (b - a)))
+  | [.bytes bs] => some (.bytes ((bs.drop a).take (b - a)))
   | [.undef] => some (.seq [])
   | [.none] => some (.seq [])
   | _ => Option.none
@@ -427,6 +511,7 @@ def normalF (g : List V → TStr) : Fn := fun args => some (.str (g args) false)
 def reverseF : Fn
   | [.str s safe] => some (.str s.reverse safe)
   | [.seq xs] => some (.seq xs.reverse)
+  | [.bytes bs] => some (.bytes bs.reverse)
   | [.undef] => some .undef
   | [.none] => some .none
   | _ => Option.none
@@ -455,6 +540,9 @@ def truthy : V → Bool
   | .bool b => b
   | .seq xs => !xs.isEmpty
   | .map kvs => !kvs.isEmpty
+  | .bytes bs => !bs.isEmpty
+  | .float cs => cs != "0.0".toList
+  | .obj _ => true
   | _ => false
 
 /-- `default(value, other = "", lax = false)` -/
@@ -473,6 +561,7 @@ def lengthF : Fn
   | [.str s _] => some (.int s.length)
   | [.seq xs] => some (.int xs.length)
   | [.map kvs] => some (.int kvs.length)
+  | [.bytes bs] => some (.int bs.length)
   | _ => Option.none
 
 /-- `replace(value, from, to)` -/
